@@ -21,7 +21,14 @@ func (w *Worker) cells(s Str) Str {
 		if f, ok := tg.fpOf.(float64); ok {
 			return mkStr(strconv.FormatFloat(f, 'f', -1, 64))
 		}
-		panic(engineError{"imprecise: the bytes of a FloatStr (shortest float rendering of a symbolic float) were inspected"})
+		if !w.absFloatText {
+			panic(engineError{"imprecise: the bytes of a FloatStr (shortest float rendering of a symbolic float) were inspected"})
+		}
+		if tg.mat != nil {
+			return Str{b: tg.mat, tag: tg}
+		}
+		tg.mat = w.abstractFloatText(tg)
+		return Str{b: tg.mat, tag: tg}
 	}
 	if tg.mat != nil {
 		return Str{b: tg.mat, tag: tg}
@@ -109,6 +116,11 @@ func init() {
 		fm, ok1 := a[1].(int64)
 		prec, ok2 := a[2].(int64)
 		bits, ok3 := a[3].(int64)
+		if _, symPrec := a[2].(*Term); symPrec && ok1 && ok3 {
+			// FormatFloat does not panic for any precision; its memory use for huge precisions is outside every claim
+			fr.w.stub("strconv.FormatFloat with a symbolic precision: opaque result (memory use outside the claim)")
+			return Str{tag: &StrTag{isFloat: true, fpOf: a[0], fmtC: byte(fm), prec: -2}}, true
+		}
 		if !ok1 || !ok2 || !ok3 {
 			return nil, false
 		}
@@ -208,7 +220,83 @@ func init() {
 			if math.IsInf(f, 0) {
 				return nil, false
 			}
+			return nil, false
+		}
+		if fr.w.opaqueParseFloat {
+			w := fr.w
+			w.stub("strconv.ParseFloat of symbolic bytes: arbitrary (float64, nil) or (0, error)")
+			if len(w.cells(s).b) > 0 && w.path.Choice(2) == 0 {
+				key := "ParseFloat"
+				for _, c := range w.cells(s).b {
+					h1, h2 := liftIntAny(c).hash()
+					key += fmt.Sprintf("/%x.%x", h1, h2)
+				}
+				if w.path.opaque == nil {
+					w.path.opaque = map[string]*Term{}
+				}
+				t, ok := w.path.opaque[key]
+				if !ok {
+					t = w.path.freshFP()
+					w.path.opaque[key] = t
+				}
+				return Tuple{t, Iface{}}, true
+			}
+			return Tuple{float64(0), w.newError(fr, "strconv.ParseFloat: parsing: invalid syntax")}, true
 		}
 		return nil, false
 	}
+}
+
+// abstractFloatText: the text of FormatFloat(f, 'f'|'g'|'e', prec) for a
+// symbolic f, abstracted to its shape: NaN / +Inf / -Inf (tied to f), or
+// sign (tied to f), 1..4 integer digits and 0..1 fraction digits (prec when
+// it is a small constant) whose values are NOT tied to f. Over-approximates
+// the digit values, under-approximates the length; enabled per harness with
+// zz.AbstractFloatText for properties that only talk about crashes or shape.
+func (w *Worker) abstractFloatText(tg *StrTag) []Value {
+	p := w.path
+	w.stub("text of a symbolic float abstracted to its shape ([-]d{1,4}[.d] | NaN | +Inf | -Inf), digits not tied to the value")
+	f := liftFloat(tg.fpOf)
+	str := func(s string) []Value { return mkStr(s).b }
+	if p.Branch(tFP("fp.isNaN", SBool, f)) {
+		return str("NaN")
+	}
+	neg := p.Branch(tFP("fp.isNegative", SBool, f))
+	if p.Branch(tFP("fp.isInfinite", SBool, f)) {
+		if neg {
+			return str("-Inf")
+		}
+		return str("+Inf")
+	}
+	var out []Value
+	if neg {
+		out = append(out, int64('-'))
+	}
+	digit := func() Value {
+		dv := newVar(fmt.Sprintf("fd%d", p.nvar), SInt, big.NewInt('0'), big.NewInt('9'))
+		p.nvar++
+		p.declare(dv)
+		return dv
+	}
+	di := 1 + p.Choice(4)
+	for i := 0; i < di; i++ {
+		out = append(out, digit())
+	}
+	df := 0
+	switch {
+	case tg.prec >= 0 && tg.prec <= 6:
+		df = tg.prec
+	case tg.prec > 6:
+		panic(engineError{"imprecise: float text with a precision above 6"})
+	default:
+		df = p.Choice(2)
+	}
+	if df > 0 {
+		out = append(out, int64('.'))
+		for i := 0; i < df; i++ {
+			out = append(out, digit())
+		}
+	}
+	p.modelOK = false
+	return out
 }
